@@ -361,7 +361,7 @@ def model_commands(model):
                 args.append([k, v])
             if node.get("meta"):
                 args.insert(node.get("meta_pos", len(args)) % (len(args) + 1), ["Metadata", {"t": node["meta"]}])
-        cmds.append({"name": node["name"], "cmd": node["cmd"], "args": args})
+        cmds.append({"name": node["name"], "cmd": node["cmd"], "args": M.permute_args(args, node.get("arg_perm"))})
     first = [n["name"] for n in model["nodes"] if n["cmd"] == "EEMSRead"][0]
     writers = [
         {"name": "W0", "cmd": "EEMSWrite", "args": [["OutFileName", {"s": "written.csv"}], ["OutFieldNames", [{"r": first}]]]},
